@@ -487,6 +487,18 @@ where
                 - ((x + s3.recip()) * two) / (t1 + t2)
         }
     };
+    // The iteration below only ever moves to the right, so it must start to
+    // the left of the root, i.e. at a point with f(x0) > 0.  The estimate above
+    // can overshoot the root when α ≠ 1/2, in which case x0 would be returned
+    // unchanged.  Since f → +∞ as x → 0⁺, shrink x0 towards zero until f(x0) > 0.
+    let mut x0 = x0;
+    for _ in 0..100 {
+        if f0(x0) >= T::zero() {
+            break;
+        }
+        x0 *= (0.5).as_T();
+    }
+
     newton_raphson_onesided(x0, f0, f1)
 }
 
